@@ -3,6 +3,8 @@ package c03
 import (
 	"bytes"
 	"fmt"
+	"os"
+	"runtime"
 	"strings"
 	"testing"
 	"testing/synctest"
@@ -144,6 +146,11 @@ func catalogue(pc *world.ProducerChain, T int) []item {
 	// forged signed data alone on the DA layer, junk data on P2P
 	out = append(out, item{Kind: "forged-signed-data(attacker key under proposer address)", Channel: "da", sdata: fsd})
 	out = append(out, item{Kind: "junk-p2p-data-with-plausible-metadata", Channel: "p2p-data", data: fd})
+	// unsigned P2P data for the height of the GENUINE block T (empty or not): the third party's own transactions,
+	// metadata copied from the genuine header / its own metadata (part 2 explores these in every delivery order)
+	for _, v := range []string{"metadata-copied-from-genuine-header/own-txs", "own-metadata/own-txs"} {
+		out = append(out, item{Kind: "unsigned-p2p-data-for-genuine-height(" + v + ")", Channel: "p2p-data", data: forgedData(pc, T, v)})
+	}
 	// malformed bytes on the DA layer
 	hb := pc.HdrBlobs[T]
 	for _, cut := range []int{1, len(hb) / 2, len(hb) - 1} {
@@ -174,11 +181,15 @@ type result struct {
 	digest string
 	fatal  []string
 	stored string // failure of the "every stored header verifies under the genesis key" clause
+	// foreign: something the node executed / stored / recorded as state is not the proposer's (same clauses as part 2);
+	// a halt on P2P-borne junk must not mask it
+	foreign string
 }
 
 // run delivers the genuine chain over the DA layer (one DA height per block) and injects `it` (nil = baseline)
 // at position pos relative to target block T: "future" (before block T-1 arrived), "next" (just before block T),
-// "past" (after block T was applied).
+// "past" (after block T was applied), "successor-header-first" (the genuine header of block T is on the DA layer
+// ahead of block T-1 and has been retrieved; then the item; then blocks T-1, T, ... as usual).
 func run(t *testing.T, pc *world.ProducerChain, it *item, T int, pos string, genuineVia string) (res result) {
 	synctest.Test(t, func(t *testing.T) {
 		env := world.NewEnv()
@@ -257,6 +268,13 @@ func run(t *testing.T, pc *world.ProducerChain, it *item, T int, pos string, gen
 			f.TickIncluder()
 		}
 		for i := 0; i < pc.Len(); i++ {
+			if pos == "successor-header-first" && i == T-1 {
+				daH++
+				env.DA.Place(daH, pc.HdrBlobs[T])
+				f.TickDA()
+				f.TickIncluder()
+				inject()
+			}
 			if pos == "future" && i == T-1 {
 				inject()
 			}
@@ -273,6 +291,9 @@ func run(t *testing.T, pc *world.ProducerChain, it *item, T int, pos string, gen
 		f.TickIncluder()
 		res.digest = f.Digest(pc.Initial)
 		res.fatal = f.Fatal
+		if o := observe(f.N, env, pc, ""); o.unsafe != "" {
+			res.foreign = o.unsafe + ": " + o.unsafeM
+		}
 		// every stored header verifies under the genesis proposer's key
 		_, blocks, _ := world.ReadChain(f.N.OracleStore(), pc.Initial)
 		proposer := f.N.Signer
@@ -288,97 +309,250 @@ func run(t *testing.T, pc *world.ProducerChain, it *item, T int, pos string, gen
 	return
 }
 
+// part1 holds the counters of the catalogue part.
+type part1 struct {
+	evals, lightEvals int64
+	p2pHalts, samples int
+}
+
+// baselines of part 1 for one producer chain: genuine traffic over the DA layer / over P2P only, and per target the
+// schedule in which the genuine header of block T is retrieved from the DA layer ahead of block T-1.
+type bases struct {
+	da, p2p result
+	ahead   map[int]result
+}
+
+func synced(pc *world.ProducerChain, b result, dainc int) bool {
+	return len(b.fatal) == 0 && strings.Contains(b.digest, fmt.Sprintf("height=%d;", pc.Len())) && strings.Contains(b.digest, fmt.Sprintf("dainc=%d;", dainc))
+}
+
+func mkBases(t *testing.T, r *vf.Run, pt string, pc *world.ProducerChain) (bs bases, ok bool) {
+	bs.da = run(t, pc, nil, 0, "", "da")
+	bs.p2p = run(t, pc, nil, 0, "", "p2p")
+	if !synced(pc, bs.p2p, 0) {
+		r.EngineError("baseline run over P2P (nothing of the proposer on the DA layer) is not 'synced, nothing DA-included': " + bs.p2p.digest)
+		return bs, false
+	}
+	if !synced(pc, bs.da, pc.Len()) {
+		r.EngineError("baseline run without adversary does not reach the producer chain: " + bs.da.digest + " " + strings.Join(bs.da.fatal, ";"))
+		return bs, false
+	}
+	if base2 := run(t, pc, nil, 0, "", "da"); base2.digest != bs.da.digest {
+		r.EngineError("baseline is not deterministic")
+	}
+	bs.ahead = map[int]result{}
+	for T := 1; T < pc.Len(); T++ {
+		b := run(t, pc, nil, T, "successor-header-first", "da")
+		if !synced(pc, b, pc.Len()) {
+			r.EngineError(fmt.Sprintf("baseline run of %q with the genuine header of block index %d retrieved ahead of its predecessor does not reach the producer chain: %s %s", pt, T, b.digest, strings.Join(b.fatal, ";")))
+			return bs, false
+		}
+		bs.ahead[T] = b
+	}
+	return bs, true
+}
+
+func applicable(it *item, T int, pos, via string) bool {
+	if (pos == "future" && T < 2) || ((pos == "next" || pos == "successor-header-first") && T < 1) {
+		return false
+	}
+	if via == "p2p" && (it.Channel != "da" || pos == "successor-header-first") {
+		return false // the P2P stores hold the genuine chain in this variant (contiguous, in order); only DA-borne items are injected
+	}
+	return true
+}
+
+// evalFull runs one full-node case of part 1 and judges it.
+func evalFull(t *testing.T, r *vf.Run, p1 *part1, pt string, pc *world.ProducerChain, bs bases, it item, T int, pos, via string) {
+	base := bs.da
+	if via == "p2p" {
+		base = bs.p2p
+	}
+	if pos == "successor-header-first" {
+		base = bs.ahead[T]
+	}
+	p1.evals++
+	res := run(t, pc, &it, T, pos, via)
+	tags := []string{it.Channel + ":" + it.Kind, "position:" + pos}
+	hist := map[string]any{"part": "catalogue", "pattern": pt, "T": T, "kind": it.Kind, "channel": it.Channel, "pos": pos, "genuine_via": via}
+	desc := fmt.Sprintf("chain genesis+%q (genuine traffic over %s), %s for height %d over %s, position %s", pt, via, it.Kind, pc.Initial+uint64(T), it.Channel, pos)
+	r.Outcome(fmt.Sprintf("%s/%s/%s/%v", it.Kind, it.Channel, via, res.digest == base.digest))
+	if res.stored != "" {
+		r.Report(vf.Violation{Clause: "stored-chain-signed-by-proposer", Tags: tags, Msg: desc + ": " + res.stored, Cost: 1, History: hist})
+		return
+	}
+	if res.digest == base.digest {
+		if p1.evals%311 == 0 && p1.samples < 3 {
+			p1.samples++
+			r.Sample(map[string]any{"case": desc, "result": "end state identical to the run without the adversary"})
+		}
+		return
+	}
+	if res.foreign != "" {
+		// differs from the baseline AND contains something the proposer never signed (not merely halted / behind)
+		r.Report(vf.Violation{Clause: "adversarial-material-changes-outcome", Tags: tags, Msg: desc + ": " + res.foreign + "\n with adversary: " + res.digest + "\n without:        " + base.digest, Cost: 1, History: hist})
+		return
+	}
+	if len(res.fatal) > 0 {
+		if it.Channel != "da" {
+			p1.p2pHalts++
+			return
+		}
+		r.Report(vf.Violation{Clause: "third-party-da-material-halts-node", Tags: tags, Msg: desc + ": the node stopped with a fatal error: " + res.fatal[0], Cost: 1, History: hist})
+		return
+	}
+	r.Report(vf.Violation{Clause: "adversarial-material-changes-outcome", Tags: tags, Msg: desc + ":\n with adversary: " + res.digest + "\n without:        " + base.digest, Cost: 1, History: hist})
+}
+
 func TestCheck(t *testing.T) {
 	r := vf.Start("C03", "exploration")
 	patterns := vf.Pick(r, []string{"ab", "ea"}, []string{"ab", "ea", "ae", "ee", "abe", "eab", "bea"})
+	// part 2: (pattern, number of forged P2P data events)
+	var orderPlan []orderOp
+	for _, pt := range vf.Pick(r, []string{"ee", "ea", "ae", "ab"}, world.Patterns("eab", 2)) {
+		orderPlan = append(orderPlan, orderOp{pt, 1})
+	}
+	for _, pt := range vf.Pick(r, []string{"e", "a"}, []string{"e", "a", "ee", "ea", "ae", "ab"}) {
+		orderPlan = append(orderPlan, orderOp{pt, 2})
+	}
+	if r.Thorough() {
+		for _, pt := range world.Patterns("eab", 3) {
+			if strings.Count(pt, "e") >= 1 { // at most two non-empty blocks: at most 6 genuine events, 720 orders
+				orderPlan = append(orderPlan, orderOp{pt, 1})
+			}
+		}
+	}
+	if sp := os.Getenv("C03_ORDER_SHARD"); sp != "" {
+		// worker process of part 2: explore one share of the plan and hand the raw result to the parent
+		var i, n int
+		if _, err := fmt.Sscanf(sp, "%d/%d", &i, &n); err != nil || n < 1 {
+			r.EngineError("bad C03_ORDER_SHARD " + sp)
+		}
+		st := &orderStats{ForgedSpecs: map[string]int{}}
+		if n >= 1 {
+			runOrderPlan(t, r, st, orderPlan, i, n)
+		}
+		r.Finish(vf.Coverage{Extra: map[string]any{"order_stats": st}})
+		return
+	}
 	r.Assume = []string{
 		"the adversary has the proposer's public key and address, the chain so far, and its own key; it cannot sign with the proposer's key",
-		"genuine traffic arrives over the DA layer (one DA height per block) or, in a second variant, over P2P only with nothing of the proposer on the DA layer; the adversarial item arrives over the DA layer, the P2P header store or the P2P data store, before block T-1, just before block T, or after block T",
-		"a halt caused by junk arriving over P2P only is recorded as an observation, not as a violation (the property's no-halt clause names third-party material on the DA layer)",
+		"part 1: genuine traffic arrives over the DA layer (one DA height per block) or, in a second variant, over P2P only with nothing of the proposer on the DA layer; the adversarial item arrives over the DA layer, the P2P header store or the P2P data store, before block T-1, just before block T, after block T, or (DA-borne genuine traffic) after the genuine header of block T was retrieved from the DA layer ahead of block T-1",
+		"part 2 injects at the sync loop's two input channels: the only third-party material that reaches them without an admission test is unsigned P2P data (DataStoreRetrieveLoop forwards every stored item; part 1 runs that loop unmodified); headers and DA data pass isUsingExpectedSingleSequencer / isValidSignedData first (part 1); every total order of the genuine events is possible at this level because four independent producers feed two buffered channels and select picks either; each event is fully processed before the next; the proposer's blobs are marked as seen on the DA layer",
+		"a halt (or falling behind) caused by junk arriving over P2P only is recorded as an observation, not as a violation (the property's no-halt clause names third-party material on the DA layer); executing, storing or finalizing anything the proposer did not sign is a violation on every channel",
 		"light-node admission is decided by the two calls go-header makes on a received header: hdr.Validate() and trusted.Verify(hdr)",
 	}
-	var evals, lightEvals int64
-	var p2pHalts int
-	positions := []string{"future", "next", "past"}
+	positions := []string{"future", "next", "past", "successor-header-first"}
+	p1 := &part1{}
+	if r.ReplayPath() != "" {
+		var h struct {
+			Part    string   `json:"part"`
+			Pattern string   `json:"pattern"`
+			Seq     []string `json:"seq"`
+			T       int      `json:"T"`
+			Kind    string   `json:"kind"`
+			Channel string   `json:"channel"`
+			Pos     string   `json:"pos"`
+			Via     string   `json:"genuine_via"`
+			Light   bool     `json:"light"`
+		}
+		if _, err := r.LoadReplay(&h); err != nil {
+			r.EngineError(err.Error())
+		} else if h.Part == "order" {
+			replayOrder(t, r, h.Pattern, h.Seq)
+		} else if pc, err := world.BuildChain(h.Pattern, 1); err != nil {
+			r.EngineError(err.Error())
+		} else {
+			found := false
+			for _, it := range catalogue(pc, h.T) {
+				if it.Kind != h.Kind {
+					continue
+				}
+				if h.Light {
+					found = true
+					lightCase(r, p1, h.Pattern, pc, it, h.T)
+					break
+				}
+				if it.Channel == h.Channel {
+					if bs, ok := mkBases(t, r, h.Pattern, pc); ok {
+						evalFull(t, r, p1, h.Pattern, pc, bs, it, h.T, h.Pos, h.Via)
+					}
+					found = true
+					break
+				}
+			}
+			if !found {
+				r.EngineError("replay: no such catalogue item: " + h.Kind + " over " + h.Channel)
+			}
+		}
+		r.Finish(vf.Coverage{Evaluations: 1, DistinctNontrivial: 1})
+		return
+	}
+	// part 2 runs in worker processes while this process does part 1
+	st := &orderStats{ForgedSpecs: map[string]int{}}
+	var waitOrder func()
+	workers := runtime.NumCPU()
+	if os.Getenv("VERIF_NOSHARD") == "" && workers > 1 {
+		waitOrder = spawnOrderWorkers(r, st, workers)
+	}
 	for _, pt := range patterns {
 		pc, err := world.BuildChain(pt, 1)
 		if err != nil {
 			r.EngineError(err.Error())
 			continue
 		}
-		base := run(t, pc, nil, 0, "", "da")
-		baseP2P := run(t, pc, nil, 0, "", "p2p")
-		if len(baseP2P.fatal) > 0 || !strings.Contains(baseP2P.digest, fmt.Sprintf("height=%d;", pc.Len())) || !strings.Contains(baseP2P.digest, "dainc=0;") {
-			r.EngineError("baseline run over P2P (nothing of the proposer on the DA layer) is not 'synced, nothing DA-included': " + baseP2P.digest)
+		bs, ok := mkBases(t, r, pt, pc)
+		if !ok {
 			continue
-		}
-		if len(base.fatal) > 0 || !strings.Contains(base.digest, fmt.Sprintf("height=%d;", pc.Len())) || !strings.Contains(base.digest, fmt.Sprintf("dainc=%d;", pc.Len())) {
-			r.EngineError("baseline run without adversary does not reach the producer chain: " + base.digest + " " + strings.Join(base.fatal, ";"))
-			continue
-		}
-		base2 := run(t, pc, nil, 0, "", "da")
-		if base2.digest != base.digest {
-			r.EngineError("baseline is not deterministic")
 		}
 		for T := 0; T < pc.Len(); T++ {
 			for _, it := range catalogue(pc, T) {
 				it := it
-				// light node: the two calls go-header makes
 				if it.light && it.hdr != nil && T > 0 {
-					lightEvals++
-					trusted := pc.Header(T - 1)
-					if it.hdr.Validate() == nil && trusted.Verify(it.hdr) == nil {
-						r.Report(vf.Violation{Clause: "light-node-admission", Tags: []string{"light:" + it.Kind}, Msg: fmt.Sprintf("a header-only node whose trusted head is the genuine header %d accepts %s for height %d (Validate()==nil and Verify()==nil)", trusted.Height(), it.Kind, it.hdr.Height()), Cost: 1, History: map[string]any{"pattern": pt, "T": T, "kind": it.Kind, "light": true}})
-					}
+					lightCase(r, p1, pt, pc, it, T)
 				}
 				for _, pos := range positions {
-					if (pos == "future" && T < 2) || (pos == "next" && T < 1) {
-						continue
-					}
 					for _, via := range []string{"da", "p2p"} {
-						if via == "p2p" && it.Channel != "da" {
-							continue // the P2P stores hold the genuine chain in this variant; only DA-borne items are injected
+						if applicable(&it, T, pos, via) {
+							evalFull(t, r, p1, pt, pc, bs, it, T, pos, via)
 						}
-						base := base
-						if via == "p2p" {
-							base = baseP2P
-						}
-						evals++
-						res := run(t, pc, &it, T, pos, via)
-						tags := []string{it.Channel + ":" + it.Kind}
-						hist := map[string]any{"pattern": pt, "T": T, "kind": it.Kind, "channel": it.Channel, "pos": pos, "genuine_via": via}
-						desc := fmt.Sprintf("chain genesis+%q (genuine traffic over %s), %s for height %d over %s, position %s", pt, via, it.Kind, pc.Initial+uint64(T), it.Channel, pos)
-						r.Outcome(fmt.Sprintf("%s/%s/%s/%v", it.Kind, it.Channel, via, res.digest == base.digest))
-						if res.stored != "" {
-							r.Report(vf.Violation{Clause: "stored-chain-signed-by-proposer", Tags: tags, Msg: desc + ": " + res.stored, Cost: 1, History: hist})
-							continue
-						}
-						if res.digest == base.digest {
-							if evals%37 == 0 {
-								r.Sample(map[string]any{"case": desc, "result": "end state identical to the run without the adversary"})
-							}
-							continue
-						}
-						if len(res.fatal) > 0 {
-							if it.Channel != "da" {
-								p2pHalts++
-								continue
-							}
-							r.Report(vf.Violation{Clause: "third-party-da-material-halts-node", Tags: tags, Msg: desc + ": the node stopped with a fatal error: " + res.fatal[0], Cost: 1, History: hist})
-							continue
-						}
-						r.Report(vf.Violation{Clause: "adversarial-material-changes-outcome", Tags: tags, Msg: desc + ":\n with adversary: " + res.digest + "\n without:        " + base.digest, Cost: 1, History: hist})
 					}
 				}
 			}
 		}
 	}
+	// part 2
+	if waitOrder != nil {
+		waitOrder()
+	} else {
+		runOrderPlan(t, r, st, orderPlan, 0, 1)
+	}
+	var planText []string
+	for _, o := range orderPlan {
+		planText = append(planText, fmt.Sprintf("%s/k=%d", o.Pattern, o.K))
+	}
+	if st.SuccessorFirstRuns == 0 || st.EmptyTargetRuns == 0 || st.NonEmptyTargetRuns == 0 {
+		r.EngineError("order part is vacuous: no run with a forged data event after the genuine header of its height while a predecessor is missing / for an empty / for a non-empty genuine block")
+	}
 	_ = time.Now
 	r.Finish(vf.Coverage{
-		Evaluations: evals + lightEvals, DistinctNontrivial: int64(r.DistinctOutcomes()), States: evals, Transitions: evals,
-		Rule:       "every (producer chain pattern, target height, catalogue item, channel, insertion position) combination runs the full node with all ingress loops; plus every (catalogue header, trusted head) pair for light-node admission; distinct = distinct (item kind, channel, identical-to-baseline?) classes",
+		Evaluations: p1.evals + p1.lightEvals + st.Runs + st.Baselines, DistinctNontrivial: int64(r.DistinctOutcomes()), States: p1.evals + st.Runs, Transitions: p1.evals + st.Runs,
+		Rule: "part 1: every (producer chain pattern, target height, catalogue item, channel, insertion position) combination runs the full node with all ingress loops; plus every (catalogue header, trusted head) pair for light-node admission; distinct = distinct (item kind, channel, identical-to-baseline?) classes. " +
+			"part 2: for every listed (pattern, k): every permutation of the genuine header/data events of the chain x every way to insert k unsigned third-party P2P data events (target = every block of the chain, empty or not, and one height beyond it; variants = third party's own transactions with metadata copied from the genuine header or its own, altered copies of the genuine transaction list, in the thorough tier also a wrong chain id and another block's genuine transactions) at every position, delivered to the real SyncLoop + DAIncluderLoop; distinct = (order feature, target feature, verdict class)",
 		Exhaustive: true,
-		Bounds:     map[string]any{"patterns": patterns, "positions": positions, "full_node_runs": evals, "light_node_pairs": lightEvals},
-		Extra:      map[string]any{"observation_p2p_only_junk_halts_node": p2pHalts},
+		Bounds: map[string]any{"patterns": patterns, "positions": positions, "full_node_runs": p1.evals, "light_node_pairs": p1.lightEvals,
+			"order_part_plan(pattern/forged events)": planText, "order_part_forged_specs(target x variant)": st.ForgedSpecs, "order_part_genuine_orders": st.Perms, "order_part_runs_with_forged_data": st.Runs, "order_part_baseline_runs": st.Baselines, "order_part_worker_processes": workers,
+			"order_part_runs_forged_data_after_genuine_header_while_predecessor_missing": st.SuccessorFirstRuns, "order_part_runs_target_empty_block": st.EmptyTargetRuns, "order_part_runs_target_non_empty_block": st.NonEmptyTargetRuns},
+		Extra: map[string]any{"observation_p2p_only_junk_halts_node": p1.p2pHalts,
+			"order_part_identical_to_baseline": st.Identical, "order_part_observation_halted_on_p2p_junk_but_safe": st.HaltedOnP2PJunk, "order_part_observation_behind_without_halt_but_safe": st.Behind},
 	})
+}
+
+// lightCase: the two calls go-header makes on a received header.
+func lightCase(r *vf.Run, p1 *part1, pt string, pc *world.ProducerChain, it item, T int) {
+	p1.lightEvals++
+	trusted := pc.Header(T - 1)
+	if it.hdr.Validate() == nil && trusted.Verify(it.hdr) == nil {
+		r.Report(vf.Violation{Clause: "light-node-admission", Tags: []string{"light:" + it.Kind}, Msg: fmt.Sprintf("a header-only node whose trusted head is the genuine header %d accepts %s for height %d (Validate()==nil and Verify()==nil)", trusted.Height(), it.Kind, it.hdr.Height()), Cost: 1, History: map[string]any{"part": "catalogue", "pattern": pt, "T": T, "kind": it.Kind, "light": true}})
+	}
 }
